@@ -53,6 +53,20 @@ Proof.
     + constructor; [unfold it_depth; simpl; lia|constructor].
 Qed.
 
+(* the top-level functions reverse the history with the linear-time [rev_append] *)
+Lemma json_c_visit_eq : forall userfunc v,
+  json_c_visit userfunc v =
+  let '(tr, ret) := visit userfunc v [] PNone KNone 0 [] in
+  (rev tr,
+   if (ret =? RET_CONTINUE) || (ret =? RET_SKIP) || (ret =? RET_POP) || (ret =? RET_STOP)
+   then 0 else RET_ERROR).
+Proof. intros. unfold json_c_visit. destruct (visit _ _ _ _ _ _ _). rewrite <- rev_alt. reflexivity. Qed.
+
+Lemma spec_visit_eq : forall userfunc v,
+  spec_visit userfunc v =
+  let '(tr, res) := machine userfunc (flatten v [] PNone KNone 0) Run [] in (rev tr, res).
+Proof. intros. unfold spec_visit. destruct (machine _ _ _ _). rewrite <- rev_alt. reflexivity. Qed.
+
 Section WithCallback.
   Variable userfunc : list event -> Z.
   Notation machine := (machine userfunc).
@@ -255,7 +269,7 @@ Section WithCallback.
   (* ---------------------------------------------------------------- visit_conforms *)
   Theorem visit_conforms_tr : forall v, json_c_visit userfunc v = spec_visit userfunc v.
   Proof.
-    intro v. unfold json_c_visit, spec_visit.
+    intro v. rewrite json_c_visit_eq, spec_visit_eq.
     pose proof (visit_machine v [] PNone KNone 0 [] []) as H.
     rewrite app_nil_r in H. rewrite H.
     pose proof (visit_code v [] PNone KNone 0 []) as Hc.
@@ -332,7 +346,7 @@ Section Results.
     (after = [] -> res = result_of (classify (userfunc (e :: rev before)))).
   Proof.
     intros v before e after res H.
-    rewrite visit_conforms_tr in H. unfold spec_visit in H.
+    rewrite visit_conforms_tr in H. rewrite spec_visit_eq in H.
     pose proof (machine_ends_well (flatten v [] PNone KNone 0) Run [] I) as W.
     destruct (machine userfunc (flatten v [] PNone KNone 0) Run []) as [tr r].
     inversion H; subst res. clear H.
@@ -417,7 +431,7 @@ Section Results.
   Proof.
     intros v calls res H.
     assert (Hne : calls <> []).
-    { rewrite visit_conforms_tr in H. unfold spec_visit in H.
+    { rewrite visit_conforms_tr in H. rewrite spec_visit_eq in H.
       destruct (flatten_head v [] PNone KNone 0) as (c & rest & Hf). rewrite Hf in H.
       simpl in H.
       match type of H with context [react ?a ?b] => destruct (react a b) end.
@@ -640,7 +654,7 @@ Section Paths.
     forall e', In e' after -> ~ is_prefix (ev_path e) (ev_path e').
   Proof.
     intros v before e after res H Hf Hs e' Hin.
-    unfold json_c_visit in H.
+    rewrite json_c_visit_eq in H.
     destruct (visit_skip_inv v [] PNone KNone 0 []) as (new & Hfst & _ & Hok).
     destruct (visit v [] PNone KNone 0 []) as [tr r]. simpl in Hfst, Hok.
     inversion H as [[Hc Hr]]. clear H Hr.
@@ -764,7 +778,7 @@ Section Paths.
     end.
   Proof.
     intros v before e after res H Hf Hp.
-    unfold json_c_visit in H.
+    rewrite json_c_visit_eq in H.
     destruct (visit_pop_inv v [] PNone KNone 0 [] I (fun x => x)) as [Hok Hpop].
     destruct (visit v [] PNone KNone 0 []) as [tr r]. simpl in Hok, Hpop.
     inversion H as [[Hc Hr]]. clear H Hr.
